@@ -1,5 +1,5 @@
 #!/bin/bash
-# Behaviour-preserving refactors (refactors/*.patch, agents/, agents2/, agents3/, agents4/, agents5/, agents6/, agents7/): every check must stay silent on them.
+# Behaviour-preserving refactors (refactors/*.patch, agents/, agents2/, agents3/, agents4/, agents5/, agents6/, agents7/, agents8/): every check must stay silent on them.
 # NOT a registered check. usage: scripts/refactors.sh [pattern]   (JOBS=n parallel worktrees, default 6)
 cd "$(dirname "$0")/.." || exit 2
 export GOFLAGS=-mod=mod GOPROXY=off GOSUMDB=off GOTOOLCHAIN=local; unset GOWORK
@@ -10,13 +10,13 @@ one() {
   if ! git -C "$WT" apply "$(readlink -f "$P")"; then echo "REFACTOR $P APPLY-FAILED"
   elif ! (cd "$WT" && go build -trimpath ./... >/dev/null 2>&1); then echo "REFACTOR $P BUILD-FAILED"
   else
-    fired=$(bin/verifchk -repo "$WT" -prop all -evidence "$EV" 2>&1 | grep -A2 '^VIOLATION' | cut -c1-260 | tr '\n' ' ')
+    fired=$(${VERIFCHK:-bin/verifchk} -repo "$WT" -prop all -evidence "$EV" 2>&1 | grep -A2 '^VIOLATION' | cut -c1-260 | tr '\n' ' ')
     if [ -z "$fired" ]; then echo "REFACTOR $P SILENT (ok)"; else echo "REFACTOR $P FALSE-ALARM $fired"; fi
   fi
   git -C /repo worktree remove --force "$WT" >/dev/null 2>&1; rm -rf "$WT" "$EV"
 }
 export -f one
-ls refactors/*.patch refactors/agents/*.patch refactors/agents2/*.patch refactors/agents3/*.patch refactors/agents4/*.patch refactors/agents5/*.patch refactors/agents6/*.patch refactors/agents7/*.patch | grep "${1:-.}" \
+ls refactors/*.patch refactors/agents/*.patch refactors/agents2/*.patch refactors/agents3/*.patch refactors/agents4/*.patch refactors/agents5/*.patch refactors/agents6/*.patch refactors/agents7/*.patch refactors/agents8/*.patch | grep "${1:-.}" \
   | xargs -P "${JOBS:-6}" -I{} bash -c 'one {}' | sort | tee /tmp/refactors.$$.out
 echo "silent: $(grep -c 'SILENT' /tmp/refactors.$$.out)  not silent: $(grep -vc 'SILENT' /tmp/refactors.$$.out)"
 rc=0; grep -vq 'SILENT' /tmp/refactors.$$.out && rc=1
